@@ -96,6 +96,11 @@ pub struct Log {
     pub sig: u64,
 }
 
+/// Set by `replay`: every event is printed the moment it is recorded, so
+/// that the schedule up to the point of death is visible for a run that
+/// brings the process down or never returns.
+pub static ECHO_LOG: std::sync::atomic::AtomicBool = std::sync::atomic::AtomicBool::new(false);
+
 impl Log {
     pub fn new(enabled: bool) -> Self {
         Log { enabled, seq: 0, lines: Vec::new(), sig: 0xcbf2_9ce4_8422_2325 }
@@ -111,7 +116,15 @@ impl Log {
         if self.enabled {
             if self.lines.len() < 20_000 {
                 let s = text();
-                self.lines.push(format!("#{:05} {}", self.seq, s));
+                let line = format!("#{:05} {}", self.seq, s);
+                if ECHO_LOG.load(std::sync::atomic::Ordering::Relaxed) {
+                    use std::io::Write;
+                    let out = std::io::stdout();
+                    let mut out = out.lock();
+                    let _ = writeln!(out, "  {}", &line[..line.len().min(2000)]);
+                    let _ = out.flush();
+                }
+                self.lines.push(line);
             }
         }
     }
